@@ -410,7 +410,9 @@ async fn client(case: Case, sh: Arc<Shared>, conn: u64, ws: crate::families::ws_
         // still not reading: the backlog must be there when the run-level event arrives
         simkernel::count("probe.backlog_held_through_run_level_event");
         wait_until(60_000, || RUN_END.load(Ordering::SeqCst)).await;
-        sleep_ms(pick(&[0u64, 5, 100])).await;
+        // ... and possibly long after it: an embedder cancel / drain must end this
+        // connection although its peer never reads
+        sleep_ms(pick(&[0u64, 5, 100, 12_000])).await;
     }
     if collector.is_none() {
         collector = Some(spawn_collector(stream.take().unwrap(), inbox.clone()));
@@ -589,6 +591,7 @@ fn c15_ws_lifecycle(case: &Case) {
         // let the individual causes play out, then the run-level event ends the survivors
         sleep_ms(pick(&[20u64, 100, 400])).await;
         RUN_END.store(true, Ordering::SeqCst);
+        let run_level_at = simkernel::now_ns();
         match mode {
             Mode::Embedder => {
                 simkernel::count("fault.embedder_cancel");
@@ -633,6 +636,20 @@ fn c15_ws_lifecycle(case: &Case) {
         }) {
             sh.gate.open_all();
             return;
+        }
+        // after an embedder cancel (or a drain trigger + its deadline) every connection that
+        // was still up ends promptly, stalled peer or not
+        if matches!(mode, Mode::Embedder | Mode::Drain) {
+            let allowance = 8_000_000_000u64 + if mode == Mode::Drain { drain_ms * 1_000_000 } else { 0 };
+            for p in &peers {
+                if let Some(t) = sh.log.time_of("disconnect-Y", *p)
+                    && t > run_level_at + allowance
+                {
+                    let plan = sh.peer_conn.lock().unwrap().get(p).map(|c| format!("{:?}", plans[*c as usize]));
+                    case.fail("disconnect-hook-late", format!("mode {mode:?}: peer {p} ({plan:?}) ran its disconnect hooks {} ms after the run-level event", (t - run_level_at) / 1_000_000));
+                    break;
+                }
+            }
         }
         for p in &peers {
             let ev = sh.log.of_peer(*p);
